@@ -16,8 +16,8 @@ use crate::oracle::table::STATES;
 use crate::oracle::vsign::*;
 use crate::repr::M;
 
-pub const RULE_C12: &str = "histories over the C12 alphabet (every message kind for the sign's own and a foreign address, sign-side and unknown messages, data chunks of lengths 0..=255 at offsets 0 and non-0, chunk counts equal/below/above the true count and 0xFFFF, configuration blocks: the 11 real ones, tiny custom sizes, zero width/height, unknown family, Max3000 widths summing over 255, random bytes; a run-length operator up to 70000 repetitions; whole-transfer macros with one injected fault) explored (a) breadth-first over (implementation state, model state) pairs for tiny sizes to a fixed point under bounds on buffered bytes / stored pages / counted chunks, (b) by proptest random walks on single signs and on buses of 1..4 signs. Oracle: every process_message call returns (no unwind, Ok); after a count message in a receiving state the sign is in the corresponding failed or received state. Non-trivial = a history that enters a receiving state and contains an irregular element (lost/short/extra chunk, wrong count, non-standard configuration block, abandoned transfer); distinct by hash of the history (BFS: distinct states by construction)";
-pub const RULE_C13: &str = "the same histories as C12 (BFS over (implementation state, model state) pairs to a fixed point under bounds for both flip styles and tiny sizes, random walks with whole-transfer macros on tiny and real sign types); after every delivered message the reply, state(), pages() (bytes and dimensions) and - where the statement determines it - sign_type() are compared with a reference sign-side state machine written from the statement. Non-trivial = a transition taken from a state reached through at least one abandoned or irregular transfer; distinct by hash of the history (BFS: distinct (implementation, model) states by construction)";
+pub const RULE_C12: &str = "histories over the C12 alphabet (every message kind for the sign's own and a foreign address, sign-side and unknown messages, data chunks of lengths 0..=255 at offsets 0 and non-0, chunk counts equal/below/above the true count and 0xFFFF, configuration blocks: the 11 real ones, tiny custom sizes, zero width/height, unknown family, Max3000 widths summing over 255, random bytes; a run-length operator up to 70000 repetitions; whole-transfer macros with one injected fault) explored (a) breadth-first over (implementation state, model state) pairs for tiny sizes to a fixed point under bounds on buffered bytes / stored pages / counted chunks, (a') by directed transfers whose chunk count crosses the 16-bit boundary with 1, 2, 3 and 4 chunks per page, (b) by proptest random walks on single signs and on buses of 1..4 signs. Oracle: every process_message call returns (no unwind, Ok); after a count message in a receiving state the sign is in the corresponding failed or received state. Non-trivial = a history that enters a receiving state and contains an irregular element (lost/short/extra chunk, wrong count, non-standard configuration block, abandoned transfer); distinct by hash of the history (BFS: distinct states by construction)";
+pub const RULE_C13: &str = "the same histories as C12 (BFS over (implementation state, model state) pairs to a fixed point under bounds for both flip styles and tiny sizes, directed transfers across the 16-bit chunk-counter boundary, random walks with whole-transfer macros on tiny and real sign types); after every delivered message the reply, state(), pages() (bytes and dimensions) and - where the statement determines it - sign_type() are compared with a reference sign-side state machine written from the statement. Non-trivial = a transition taken from a state reached through at least one abandoned or irregular transfer; distinct by hash of the history (BFS: distinct (implementation, model) states by construction)";
 pub const ASSUMPTIONS_C12: &[&str] = &["panics are observed with catch_unwind around every process_message call; the harness is built with overflow checks on (as cargo test builds flipdot), the thorough tier also with checks off"];
 pub const ASSUMPTIONS_C13: &[&str] = &[
     "the reference state machine in oracle/vsign.rs is a correct reading of the statement and of the State/Operation documentation",
@@ -473,6 +473,8 @@ fn msg_strategy(own: u16, others: Vec<u16>) -> impl Strategy<Value = M> {
         4 => block_strategy().prop_map(|b| b.bytes()),
         4 => Just(vec![0xABu8; 16]),
         2 => proptest::sample::select(vec![0usize, 1, 15, 17, 32, 255]).prop_flat_map(|n| proptest::collection::vec(any::<u8>(), n)),
+        // truncated / over-long blocks that start like a configuration block
+        2 => (proptest::sample::select(vec![0x04u8, 0x08]), proptest::sample::select(vec![1usize, 2, 5, 7, 8, 9, 15, 17, 255])).prop_map(|(f, n)| { let mut v = vec![0x10u8; n]; v[0] = f; v }),
         1 => (0usize..=255).prop_flat_map(|n| proptest::collection::vec(any::<u8>(), n)),
     ];
     prop_oneof![
@@ -574,6 +576,9 @@ pub fn bfs_alphabet(own: u16, foreign: u16, rich: bool) -> Vec<M> {
             v.push(M::Data { off, data: p.clone() });
         }
     }
+    // truncated blocks that start like a configuration block (offset 0 only)
+    v.push(M::Data { off: 0, data: vec![0x04] });
+    v.push(M::Data { off: 0, data: vec![0x08, 0xEE, 0, 0, 0, 8, 0] });
     if !rich {
         // configuration-only extras at offset 0 (as pixel data they are just another 16-byte chunk)
         v.push(M::Data { off: 0, data: tiny_block(0, 8) });
@@ -764,6 +769,81 @@ fn run_bfs_part(ctx: &Ctx, name: &str, own: u16, automatic: bool, rich: bool, bo
     }
 }
 
+/// Transfers whose chunk count passes the 16-bit boundary: `pages` complete pages of the configured size in one
+/// pixel transfer (so that page starts and counter wrap-arounds coincide in every possible way), then the count.
+#[derive(Serialize, Deserialize, Debug, Clone, PartialEq, Eq, Hash)]
+pub struct DeepCase {
+    pub block: Block,
+    pub pages: u32,
+    /// announced count = (chunks sent + delta) mod 65536
+    pub count_delta: i32,
+    pub automatic: bool,
+}
+
+pub fn check_deep(c: &DeepCase, mode: Mode, st: &mut Stats) -> Result<(), String> {
+    let addr = 0x0102u16;
+    let mut sign = VirtualSign::new(Address(addr), flip(c.automatic));
+    let mut model = SignModel::new(addr, c.automatic);
+    let deliver = |sign: &mut VirtualSign<'static>, model: &mut SignModel, m: M, check_pages: bool, st: &mut Stats| -> Result<(), String> {
+        let msg = m.to_message();
+        st.eval();
+        step_pair(sign, model, &m, &msg, mode, check_pages)
+    };
+    deliver(&mut sign, &mut model, M::Req(addr, O_RECEIVE_CONFIG), true, st)?;
+    deliver(&mut sign, &mut model, M::Data { off: 0, data: c.block.bytes() }, true, st)?;
+    deliver(&mut sign, &mut model, M::Count(1), true, st)?;
+    deliver(&mut sign, &mut model, M::Req(addr, O_RECEIVE_PIXELS), true, st)?;
+    let size = if model.w > 0 && model.h > 0 { total_len(model.w, model.h) } else { 16 };
+    let mut sent: u64 = 0;
+    for p in 0..c.pages {
+        let mut off = 0usize;
+        while off < size {
+            let n = (size - off).min(16);
+            let data: Vec<u8> = (0..n).map(|i| (p as u8) ^ ((off + i) as u8)).collect();
+            // compare the page lists only now and then (they grow to tens of thousands of pages)
+            let check = p % 8192 == 8191 && off == 0;
+            deliver(&mut sign, &mut model, M::Data { off: off as u16, data }, check, st).map_err(|e| format!("page {p}, offset {off}: {e}"))?;
+            off += n;
+            sent += 1;
+        }
+    }
+    let announced = ((sent as i64 + c.count_delta as i64).rem_euclid(65536)) as u16;
+    deliver(&mut sign, &mut model, M::Count(announced), true, st).map_err(|e| format!("after {sent} chunks in {} pages: {e}", c.pages))?;
+    deliver(&mut sign, &mut model, M::PixelsComplete(addr), true, st)?;
+    deliver(&mut sign, &mut model, M::Query(addr), true, st)?;
+    st.nontrivial(h64(c));
+    st.class("deep-counter-transfer");
+    if st.want_sample() {
+        st.sample(json!({"block": short_op(&HOp::Config { addr, block: c.block.clone(), fault: Fault::None }), "pages": c.pages, "chunks": sent, "announced": announced, "final_state": format!("{:?}", STATES[model.state as usize].0), "stored_pages": model.pages.len()}));
+    }
+    Ok(())
+}
+
+fn run_deep(ctx: &Ctx, mode: Mode) {
+    // (block, chunks per page): one-chunk and two-chunk tiny pages, 23x10 (4 chunks), 30x7 (3 chunks: never divides 65536)
+    let blocks: Vec<(Block, u32)> = vec![
+        (Block::Raw(tiny_block(12, 8)), 1),
+        (Block::Raw(tiny_block_max3000(20, 8, 8)), 2),
+        (Block::Real(4), 4),
+        (Block::Real(5), 3),
+    ];
+    let mut cases = vec![];
+    for (b, cpp) in &blocks {
+        let base = 65536 / cpp;
+        for d in [-1i64, 0, 1, 2] {
+            let pages = (base as i64 + d) as u32;
+            for count_delta in [0i32, 1] {
+                cases.push(DeepCase { block: b.clone(), pages, count_delta, automatic: d % 2 == 0 });
+            }
+        }
+    }
+    crate::engine::par_range(ctx, "deep-counter", cases.len() as u64, |i, st| {
+        let c = &cases[i as usize];
+        check_deep(c, mode, st).map_err(|m| (serde_json::to_value(c).unwrap(), m))
+    });
+    ctx.part_done("deep-counter", true, json!({"cases": cases.len(), "what": "pixel transfers of 65536/cpp - 1 .. + 2 complete pages for 1, 2, 3 and 4 chunks per page, announced count right / off by one"}));
+}
+
 pub fn run(ctx: &Ctx, c13: bool) {
     let mode = if c13 { Mode::C13 } else { Mode::C12 };
     let thorough = ctx.tier == crate::engine::Tier::Thorough;
@@ -796,6 +876,9 @@ pub fn run(ctx: &Ctx, c13: bool) {
         );
     }
 
+    // (a') transfers across the 16-bit chunk-counter boundary
+    run_deep(ctx, mode);
+
     // (b) random walks on a single sign
     run_generated(ctx, "walk", ctx.tier.pick(30_000, 1_000_000), || history_strategy(60), |c, st| check_history(c, mode, st));
     run_generated(ctx, "walk-long", ctx.tier.pick(600, 20_000), || history_strategy(400), |c, st| check_history(c, mode, st));
@@ -812,6 +895,10 @@ pub fn replay(part: &str, case: &Value, c13: bool) -> Result<(), String> {
     if part == "bus-walk" {
         let c: BusHistoryCase = serde_json::from_value(case.clone()).map_err(|e| format!("bad case: {e}"))?;
         return check_bus_history(&c, &mut st);
+    }
+    if part == "deep-counter" {
+        let c: DeepCase = serde_json::from_value(case.clone()).map_err(|e| format!("bad case: {e}"))?;
+        return check_deep(&c, mode, &mut st);
     }
     let c: HistoryCase = serde_json::from_value(case.clone()).map_err(|e| format!("bad case: {e}"))?;
     check_history(&c, mode, &mut st)
